@@ -32,6 +32,7 @@ MODEL = {
     'graph_chain_p2': ('graph', 2), 'graph_comb_p1': ('cts', 1), 'graph_comb_p0': ('cts', 0),
     'cts_recursive_heavy_p1': ('cts', 1), 'cts_recursive_light_p1': ('cts', 1), 'cts_recursive_heavy_p0': ('cts', 0),
     'ts_recursive_p1': ('ts', 1), 'pool_recursive_p1': ('pool', 1), 'pool_recursive_p0': ('pool', 0),
+    'pool_bulk_recursive_p1': ('pool', 1),
 }
 # what the model of the code as it is (with the repair of the pool / TaskSet paths) is expected to say
 EXPECTED_UNBOUNDED = {('immediate', 1), ('futwait', 1), ('pool', 0), ('ts', 0), ('cts', 0)}
